@@ -33,6 +33,14 @@ ENC_TOKENS = ['TypeError', GENERIC]
 DICT_READ_METHS = ('__getitem__', 'get', 'keys', 'values', 'items', '__contains__', '__len__', '__iter__', 'copy')
 
 
+def str_typed(t):
+    if is_const(t):
+        return isinstance(t[1], str)
+    if t[0] == 'bin' and t[1] == '+':
+        return str_typed(t[2]) or str_typed(t[3])
+    return False
+
+
 def on_self_store(t):
     """does a path / connection term derive from this archive's own location"""
     return contains_term(t, lambda x: x == ('state', 'id') or x == ('state', 'root') or
@@ -523,6 +531,10 @@ class AModel(Model):
                 if self.exc and not tolerant:
                     outs.append(R(st.fork(), None, 'KeyError', line))
                 return outs
+        if f[0] == 'attr' and f[2] in ('startswith', 'endswith') and args and args[0] in (('lib', 'pickle.PROTO'), ('lib', 'pickle.STOP')) \
+                and str_typed(f[1]):
+            # str.startswith(bytes) raises TypeError: a text key is never taken for a pickle
+            return [R(st, None, 'TypeError', line)]
         if full == 'hasattr' and len(args) == 2 and args[0][0] in ('dict',) and is_const(args[1]):
             return [R(st, C(hasattr(dict, args[1][1])))]
         if f[0] == 'attr' and f[2] == 'copy' and not args and f[1][0] == 'dict':
